@@ -237,6 +237,12 @@ func extractParadigm(repo string) (string, string, error) {
 	fieldPar := map[string]string{"i": "PI", "s": "PS", "c": "PC", "t": "PT"}
 	chains := map[string][]chainStep{}
 	for _, st := range np.Body.List {
+		if sw, ok := st.(*ast.SwitchStmt); ok && sw.Tag == nil && sw.Init == nil {
+			// switch { case i != nil: … default: … } is the if / else-if chain with the same tests
+			if l, err := (&c04Tr{name: "newRunnablePacker"}).switchToIf(sw); err == nil && len(l) == 1 {
+				st = l[0]
+			}
+		}
 		is, ok := st.(*ast.IfStmt)
 		if !ok {
 			continue
